@@ -40,7 +40,7 @@ Definition chunk (k : N) (bs : bytes) : list bytes := chunk_fuel (length bs) (N.
 
 (* ---- blocks ---- *)
 Inductive tree := Leaf (d : bytes) | Node (ch : list (tree * N)).     (* child, recorded size (UnixFS blocksize) *)
-Definition link := (tree * N)%type.
+Notation link := (tree * N)%type (only parsing).
 
 Definition kids (t : tree) : list tree := match t with Leaf _ => [] | Node ch => map fst ch end.
 
